@@ -95,12 +95,18 @@ class DescriptorFormat:
             "sub_decay_pattern": sub_decay_pattern,
         }
         self.old_config = copy(DescriptorFormat.config)
+        # Formats in force at the (possibly nested) entries of this context object
+        self._old_configs: list[dict[str, str]] = []
 
     def __enter__(self) -> None:
+        # Save the format in force now, not the one seen at construction
+        old_config = copy(DescriptorFormat.config)
         self.set_config(**self.new_config)
+        self.old_config = old_config
+        self._old_configs.append(old_config)
 
     def __exit__(self, *args: list[Any]) -> None:
-        self.set_config(**self.old_config)
+        self.set_config(**self._old_configs.pop())
 
     @staticmethod
     def set_config(decay_pattern: str, sub_decay_pattern: str) -> None:
